@@ -474,8 +474,17 @@ Agree(o, F) == "panic" \notin DOMAIN o /\ ReadsOK(o, F) /\ QueriesOK(o, F) /\ Or
 \* of the schema leaves the OLD indexed values of that object in the index; Control cannot see it and
 \* Repair skips the object.  G is the listing the index then reflects: indexed fields of the stale
 \* objects from the pre-state, everything else from the files.
-StaleView(F, Sm) == [u \in DOMAIN F |-> [f \in DOMAIN F[u] |->
-                       IF u \in DOMAIN Sm /\ f \in IndexedF THEN Sm[u][f] ELSE F[u][f]]]
+\* the versions of an object the index may still describe: the one before the call, or (chunked bulk
+\* insert: earlier chunks are committed) any version the interrupted call wrote
+Versions(F, Sm, u) ==
+  {F[u]} \cup (IF u \in DOMAIN Sm THEN {Sm[u]} ELSE {})
+         \cup (IF wev > 0 /\ Trace[wev].ev = "many"
+               THEN {Trace[wev].batch[i].after : i \in {j \in 1..Len(Trace[wev].batch) : "after" \in DOMAIN Trace[wev].batch[j] /\ Trace[wev].batch[j].slot = u}}
+               ELSE {})
+Mix(file, old) == [f \in DOMAIN file |-> IF f \in IndexedF THEN old[f] ELSE file[f]]
+StaleViews(F, Sm) ==
+  LET all == UNION {Versions(F, Sm, u) : u \in DOMAIN F}
+  IN {[u \in DOMAIN F |-> Mix(F[u], g[u])] : g \in {h \in [DOMAIN F -> all] : \A u \in DOMAIN F : h[u] \in Versions(F, Sm, u)}}
 QueryStaleOK(qe, G, F, o) ==
   LET q == qe[1]  c == qe[2]  items == qe[3]
       slots == [i \in 1..Len(items) |-> items[i][1]]
@@ -483,7 +492,7 @@ QueryStaleOK(qe, G, F, o) ==
                        /\ \A i \in 1..Len(items) : items[i][1] \in DOMAIN F => o.recs[items[i][2]] = F[items[i][1]]
 AgreeStale(o, F, Sm) ==
   /\ "panic" \notin DOMAIN o /\ ReadsOK(o, F)
-  /\ "q" \in DOMAIN o => \A i \in 1..Len(o.q) : QueryStaleOK(o.q[i], StaleView(F, Sm), F, o)
+  /\ "q" \in DOMAIN o => \E G \in StaleViews(F, Sm) : \A i \in 1..Len(o.q) : QueryStaleOK(o.q[i], G, F, o)
 AgreeD(o, F, Sm) == Agree(o, F) \/ ("StaleIndex" \in Dev /\ AgreeStale(o, F, Sm))
 
 LoadReports(E_) == E_.load = "corrupted" \/ ("create" \in DOMAIN E_ /\ E_.create = "corrupted")
